@@ -757,10 +757,31 @@ func (c *Check) onceFields() {
 	}
 	// htmlTemplates global
 	if gv := p.SSAPkg("internal/driver").Var("htmlTemplates"); gv != nil {
+		// var htmlTemplates = sync.OnceValue(build): the variable holds the once-guarded
+		// getter itself; it is assigned during package initialisation only and calling it is
+		// the synchronised access
+		_, isGetter := gv.Type().(*types.Pointer).Elem().Underlying().(*types.Signature)
 		for _, ins := range globalRefs(p, gv) {
 			f := ins.Parent()
 			key := "once:htmlTemplates@" + fnName(f)
 			_, isStore := ins.(*ssa.Store)
+			if isGetter {
+				fromOnceValue := false
+				if st, ok := ins.(*ssa.Store); ok {
+					if call, ok := st.Val.(*ssa.Call); ok && call.Call.StaticCallee() != nil && strings.HasPrefix(call.Call.StaticCallee().String(), "sync.OnceValue") {
+						fromOnceValue = true
+					}
+				}
+				switch {
+				case isStore && f.Name() == "init" && fromOnceValue:
+					c.ok("C20-R1", key, p.relFile(ins.Pos()), "htmlTemplates is bound to a sync.OnceValue getter during package initialisation", "the only store is in init and its value is the result of sync.OnceValue")
+				case isStore:
+					c.bad("C20-R1", key, p.relFile(ins.Pos()), "the once-guarded getter htmlTemplates is re-assigned in "+fnName(f))
+				default:
+					c.ok("C20-R1", key, p.relFile(ins.Pos()), "htmlTemplates read in "+fnName(f), "the variable is a sync.OnceValue getter: calling it is the synchronised access")
+				}
+				continue
+			}
 			switch {
 			case isOnceClosure(p, f):
 				c.ok("C20-R1", key, p.relFile(ins.Pos()), "htmlTemplates accessed in "+fnName(f), "inside the htmlTemplateInit.Do closure")
